@@ -329,6 +329,11 @@ def check(run: Run) -> None:
     _check_lambda_rebuilt(run, m, mod)
     run.rule("C10.R10", "get_method_and_class answers 'no method' for the unknown type by identity (class_object is Any), before any MRO walk")
     _check_any_guard(run, m)
+    # which filters Where accepts, and which conditionals are refused, is decided by the types the node rules record
+    run.rule("C10.R11", "the node type rules hold (C08.R1 re-evaluated): a comparison or boolean combination is typed bool whatever its operands, arithmetic is never typed bool - otherwise Where refuses a legal filter or accepts a non-boolean one, and visit_IfExp's refusal changes")
+    from ..report import run_stage
+
+    run_stage(run, "c08", only={"C08.R1"})
     run.rule("C10.R8", "the string form of a lambda is parsed as given (only surrounding whitespace stripped): no re-tokenising / whitespace normalisation that would alter string constants")
     from ..lib import view as _view
 
